@@ -15,6 +15,14 @@ CHECKS = {
             "bounded-exhaustive execution of the real solver over (tiny-LP family x configuration vectors) with exact classification and exact Farkas/ray checks",
             "Same executions as C01; verdicts INFEASIBLE / UNBOUNDED / INForUNBD / OPTIMAL are compared with the exact classification of the entered LP, every offered Farkas vector and primal ray is verified in exact arithmetic (interval separation, recession-cone membership and strict improvement), and ENSURERAY is checked to deliver the certificate.",
             "Trusted: exact oracle as for C01. Ray/Farkas entries below 1e-9 of the largest entry are treated as zero before sign tests."),
+    "C06": ("model_checking", "DESIGN.md section 3 C06",
+            "exhaustive enumeration of operation histories (depth-bounded) over the real modification entry points, each replayed on a fresh object and compared with a dense reference model; exact oracle for the final re-solve",
+            "All operation sequences up to depth 2 (thorough: 3) over ~150 instantiated calls of the real-interface modification entry points (plus optimize / getBasis+setBasis / clearBasis), from 7 initial states (empty, loaded, solved, solved infeasible, basis set on an unsolved LP, aborted solve, solved 3x2) under 7 (thorough: 17) parameter vectors (scaler x persistent scaling, simplifier off, row representation). The implementation is the transition function: every sequence is executed on a fresh SoPlex object; after its last operation every accessor (dimensions, coefficients row- and column-wise, sides, bounds, objective, row types, sense, offset) must equal the reference model bit for bit, returned perm arrays must be valid witnesses, a cached solution must not be reported after a modification, a surviving basis must be valid for the modified LP, and re-optimisation must return the exact status and optimum of the model LP.",
+            "Trusted: the dense reference model and the exact oracle in the harness. States are not merged (internal state such as scale exponents decides the future), so the depth bound is the only bound."),
+    "C10": ("exploration", "DESIGN.md section 3 C10",
+            "bounded-exhaustive execution of SLUFactor<double> over all small integer matrices x update type x Markowitz threshold x all column-replacement sequences up to a depth x every solve variant, exact rational reference; second pass under AddressSanitizer",
+            "Every 2x2 and 3x3 matrix over {-1,0,1,2} is loaded (singular <=> det 0 exactly, checked with rational elimination), every solve variant (dense/sparse right and left solves, the 4update variants, the two- and three-right-hand-side variants) is compared with the exact solution on unit, dense and 2-sparse right-hand sides, under Forrest-Tomlin and product-form updates and several Markowitz thresholds; all column-replacement sequences of depth 1 (thorough: 2) over {-1,0,1}^3 on the {0,1,2} cube, driven like SPxBasisBase::change; structured matrices up to dimension 16 (thorough: 40, plus 4x4). The same enumerators run a second time on thinned families under AddressSanitizer, whose reports are verdicts.",
+            "Trusted: exact Gaussian elimination over GMP rationals. Replacements that make the matrix exactly singular are skipped (the simplex never performs them); a bare change() without a prepared update vector and explicit-eta updates under Forrest-Tomlin are outside the protocol SoPlex itself uses and are not driven."),
 }
 
 NOT_YET = {}
